@@ -35,10 +35,15 @@ def history(rng, arch, nops, name):
         end = base_avma + (pos - base_svma) + 0x40
         s.module_dwarf("M%d" % i, base_avma, end, base_avma, base_svma, pres, fdes, rng, shuffle=True)
         mods.append(dict(id="M%d" % i, start=base_avma, end=end, fdes=fdes, bs=base_svma, pres=pres))
+    # an image with an EMPTY address range (start == end) that nevertheless carries unwind data: the lookup finds it for
+    # exactly its start address, so adding / removing it changes what that address unwinds to
+    e_start = 0x9000
+    s.module_dwarf("ME", e_start, e_start, e_start, 0, "eh", [dict(start=0, len=0x10, rows=[(0, suites.std_row(arch, "frameless", 9))])], rng)
+    mods.append(dict(id="ME", start=e_start, end=e_start, fdes=[], bs=0, pres="eh"))
     s.add("new U0"); s.add("newcache C0"); s.add("newcache C1")
     unws = {"U0": set()}
     kinds = {}
-    pool = []
+    pool = [e_start] * 4
     cacheable = set()          # lookup addresses whose rule is certainly cacheable (standard rows / no module)
     for m in mods:
         for f in m["fdes"]:
@@ -50,7 +55,7 @@ def history(rng, arch, nops, name):
                 cacheable.add(a0 + 1)                  # inside the first (standard) row
             pool.append(a0 + f["len"])                 # just past the FDE
     pool += [0x5, 0x9000, 0x20000 + 509 * 3]
-    cacheable |= {0x5, 0x9000}
+    cacheable |= {0x5}
     for _ in range(nops):
         c = rng.below(20)
         u = rng.choice(sorted(unws))
